@@ -379,7 +379,7 @@ func (rn *runner) takeG(sortAll bool) string {
 }
 
 func isGenOp(op string) bool {
-	return strings.HasPrefix(op, "g.") || strings.HasPrefix(op, "pkt ") || strings.HasPrefix(op, "timer ")
+	return strings.HasPrefix(op, "g.") || strings.HasPrefix(op, "pkt ") || strings.HasPrefix(op, "timer ") || strings.HasPrefix(op, "dial2 ")
 }
 
 // suffix = callbacks made by the op + state afterwards (also after a panic).
@@ -598,6 +598,13 @@ func (rn *runner) exec(op string) string {
 		time.Sleep(time.Duration(u64(w[1])))
 		synctest.Wait()
 		return "ok" + rn.suffix(op)
+	case "dial2": // dial2 <hexid>: after the first connection closed, a second one is dialled on the same transport with this
+		// source connection ID (with zero-length connection IDs: the same, empty one)
+		if len(w) < 2 || !rn.gclosed {
+			return "skip"
+		}
+		rn.hm.InstallSecond(unhx(w[1]))
+		return "ok" + rn.suffix(op)
 	case "pkt": // pkt <hexid>: a packet with this destination connection ID arrives at the transport
 		if len(w) < 2 {
 			return "skip"
@@ -787,9 +794,14 @@ func (rn *runner) genG(r *vh.Rand) string {
 	}
 	rn.gNow += r.Range(0, 400_000_000)
 	if rn.genGClosed {
-		switch r.Pick(40, 60) {
+		switch r.Pick(35, 50, 15) {
 		case 0:
 			return fmt.Sprintf("timer %d", r.Range(1, 2_000_000_000))
+		case 2: // the next dial on this transport: the same ID when connection IDs have zero length, mostly
+			if rn.gIDLen == 0 || r.Chance(60) {
+				return "dial2 " + hx(rn.gAllIDs[0])
+			}
+			return "dial2 " + hx(rn.somePktID(r))
 		default:
 			return "pkt " + hx(rn.somePktID(r))
 		}
